@@ -78,6 +78,10 @@ fn viol_json(v: &VOut) -> String {
         .build()
 }
 
+pub static SERIAL: std::sync::atomic::AtomicU64 = std::sync::atomic::AtomicU64::new(0);
+type Cur = Option<(String, u64, u64, bool, u64, ev::Log)>;
+pub static CURRENT: std::sync::Mutex<Cur> = std::sync::Mutex::new(None);
+
 fn cmd_sim(a: &Args) -> i32 {
     let prop = a.str("prop", "all");
     let profiles: Vec<String> = a.str("profiles", "traffic").split(',').map(|s| s.to_string()).collect();
@@ -107,6 +111,85 @@ fn cmd_sim(a: &Args) -> i32 {
     let mut odd_viol = 0u64;
     let mut timed_out = false;
     let want_traces = a.has("trace-out");
+    // Hang monitor: the single runtime thread of a scenario never blocks on its own (scripted steps burn at most a few
+    // ms of wall time). If one scenario makes no progress (no new event) for 20 s of wall time while this monitor
+    // thread itself is scheduled on time, the thread is blocked or spinning inside the code under test.
+    {
+        let prop = prop.clone();
+        std::thread::spawn(move || {
+            let mut last: (u64, usize) = (0, 0);
+            let mut since = std::time::Instant::now();
+            loop {
+                let t = std::time::Instant::now();
+                std::thread::sleep(std::time::Duration::from_millis(500));
+                let late = t.elapsed().as_millis() > 900;
+                let cur = CURRENT.lock().unwrap_or_else(|e| e.into_inner()).clone();
+                let Some((prof, seed, pert, erased, serial, log)) = cur else {
+                    since = std::time::Instant::now();
+                    continue;
+                };
+                let n = log.len();
+                if late || (serial, n) != last {
+                    last = (serial, n);
+                    since = std::time::Instant::now();
+                    continue;
+                }
+                if since.elapsed().as_secs() >= 20 {
+                    let evs = log.snapshot();
+                    let mut open: std::collections::BTreeMap<u64, String> = Default::default();
+                    for e in &evs {
+                        match &e.k {
+                            ev::K::CallStart { op, actor, kind, uid, ctx, .. } => {
+                                open.insert(*op, format!("{kind:?} uid {uid} to actor {actor} issued by {ctx:?}"));
+                            }
+                            ev::K::CallEnd { op, .. } | ev::K::CallCancelled { op } | ev::K::CallPanicked { op, .. } => {
+                                open.remove(op);
+                            }
+                            _ => {}
+                        }
+                    }
+                    let lastop = open.values().last().cloned().unwrap_or_default();
+                    let clause = match prop.as_str() {
+                        "C06" => "C06.nonblocking",
+                        "C14" => "C14.detect",
+                        "C15" => "C15.sound",
+                        "C12" => "C12.isolated_histories",
+                        "C17" => "C17.deadline",
+                        "C18" => "C18.equal_traces",
+                        _ => "C03.complete",
+                    };
+                    let v = VOut {
+                        prop: clause[..3].to_string(),
+                        clause: clause.to_string(),
+                        msg: format!("[thread-blocked] the runtime thread has been blocked for 20 s of wall time inside one scenario (no event, no timer) while the machine was responsive: a call inside rsactor blocks its thread forever; most recent unfinished call: {lastop}; {} events so far", evs.len()),
+                        profile: prof,
+                        seed,
+                        pert,
+                        erased,
+                    };
+                    println!(
+                        "{}",
+                        JObj::new()
+                            .s("engine", "sim")
+                            .s("features", &features_label())
+                            .s("mode", "hang")
+                            .n("scenarios", serial)
+                            .n("events", 0)
+                            .raw("obl", "{}")
+                            .raw("nontrivial", "{}")
+                            .raw("distinct", "{}")
+                            .raw("viol", &jarr(&[viol_json(&v)]))
+                            .raw("samples", "[]")
+                            .raw("unexpected_panics", "[]")
+                            .b("timed_out", false)
+                            .b("hang", true)
+                            .build()
+                    );
+                    std::process::exit(1);
+                }
+            }
+        });
+    }
     'outer: for j in 0..count {
         if j % nshards != shard {
             continue;
@@ -127,7 +210,9 @@ fn cmd_sim(a: &Args) -> i32 {
                 };
                 let mut traces: Vec<Vec<String>> = vec![];
                 for &erased in modes {
+                    SERIAL.fetch_add(1, std::sync::atomic::Ordering::Relaxed);
                     let out = sim::run_scenario(&sc, erased);
+                    *CURRENT.lock().unwrap_or_else(|e| e.into_inner()) = None;
                     scenarios += 1;
                     events += out.log.len() as u64;
                     odd_viol += out.odd_sample_violations;
